@@ -1,16 +1,26 @@
-PROP = {'id': 'C20', 'level': 'proof',
- 'functions': ['Result.is_successful', 'Result.is_failed', 'Result.is_canceled', 'JobSubmitter._build_results',
+PROP = {'id': 'C20',
+ 'level': 'other',
+ 'functions': ['Result.is_successful',
+               'Result.is_failed',
+               'Result.is_canceled',
+               'JobSubmitter._build_results',
                'ResourceMonitorAggregator.update_resource_stats'],
- 'native': ['ResourceMonitorAggregator.update_resource_stats'],
+ 'native': ['ResourceMonitorAggregator.update_resource_stats', 'EventsSummary._consolidate_events'],
  'lemmas': ['lemma_c20_running_stats', 'lemma_fold_schemas'],
  'records': ['Result', 'ResourceMonitorAggregator', 'JobSubmitter'],
  'min_obligations': 150,
  'assumptions': ['floats are reals (rounding of sum and of sum/count ignored)',
                  'samples are non-negative and below sys.maxsize; the monitor reports a stable set of cells (assumed contract of _get_stats)',
                  'result rows are well-formed (status finished, or canceled with a non-zero code): established by the three row producers'],
- 'not_decided': ['event consolidation (EventsSummary._consolidate_events, StructuredLogEvent round trip): file/JSON I/O outside the verified subset - not under contract',
-                 'ResourceMonitorAggregator.finalize (mean = sum / count and report layout) and the per-process branch of update_resource_stats: not under contract',
+ 'not_decided': ['ResourceMonitorAggregator.finalize (mean = sum / count and report layout) and the per-process branch of update_resource_stats: not under '
+                 'contract',
                  'ResultsSummary.show_results tallies (same classifier calls, PrettyTable output): not under contract',
-                 'parquet encoding of resource-stat events; clock skew between nodes'],
- 'explanation': 'Per call update_resource_stats moves every reported cell to max(old,v) / min(old,v) / old+v and changes nothing else (nested-dict frame); lemma L-C20 lifts this by '
-                'induction to the true max/min/sum of all samples. _build_results counts each result in exactly one class and each tally equals the number of results of that class.'}
+                 'parquet encoding of resource-stat events; clock skew between nodes',
+                 'event consolidation (EventsSummary._consolidate_events / _save_events_summary, StructuredLogEvent round trip): json / pandas / defaultdict, '
+                 'outside the verified subset - BOUNDED only: generated multisets of events over 1-5 per-process files, each event exactly once with all '
+                 'fields, ordered by time within its name, idempotent'],
+ 'explanation': 'Per call update_resource_stats moves every reported cell to max(old,v) / min(old,v) / old+v and changes nothing else (nested-dict frame); '
+                'lemma L-C20 lifts this by induction to the true max/min/sum of all samples. _build_results counts each result in exactly one class and each '
+                "tally equals the number of results of that class. The level is 'other' because the first half of the property (events lossless, ordered, "
+                'idempotent) is decided by bounded checking only; statistics (running max/min/sum, lemma over all sample sequences) and tallies (each result '
+                'in exactly one class) are proved.'}
